@@ -397,6 +397,33 @@ def make_interp(dag, funcs):
     return NumpyInterpreter(dag, funcs)
 
 
+def install_store(interp, store, make_sibling=None):
+    """Makes `store` (an instrumented dict) the interpreter's variable store: every reference the interpreter or the
+    objects it owns (its expression evaluator) hold to the original `interp.context` dict is replaced, also inside
+    chained mappings.  If the interpreter chains further mappings with it (e.g. a scratch namespace for per-step
+    variables), each of them is replaced by `make_sibling()` -- an instrumented mapping reporting to the same log."""
+    import collections
+    orig = interp.context
+    repl = {id(orig): store}
+    owners = [interp] + [v for v in vars(interp).values()
+                         if hasattr(v, "__dict__") and not isinstance(v, type)
+                         and type(v).__module__.split(".")[0] in ("dagrt", "pymbolic")]
+    chains = [val for o in owners for val in vars(o).values() if isinstance(val, collections.ChainMap)]
+    for ch in chains:
+        for m in ch.maps:
+            if id(m) not in repl and make_sibling is not None and isinstance(m, dict):
+                sib = make_sibling()
+                dict.update(sib, m)
+                repl[id(m)] = sib
+    for o in owners:
+        for name, val in list(vars(o).items()):
+            if id(val) in repl:
+                setattr(o, name, repl[id(val)])
+    for ch in chains:
+        ch.maps = [repl.get(id(m), m) for m in ch.maps]
+    return store
+
+
 def persistent_names(dag):
     """every persistent name (<t>, <dt>, <state>*, <p>*) a statement of the method declares as read or written"""
     out = set()
